@@ -101,7 +101,28 @@ pub enum Shared {
   Kid,
   /// custom: `x-shared`
   Custom,
+  /// registered parameter `REGISTERED_SHARED[i]` (one per field of the header types)
+  Registered(u8),
 }
+
+/// Registered header parameters other than alg / b64 / crit / kid, with a value their setters accept.
+fn registered_shared(i: u8) -> (String, Value) {
+  let table: [(&str, Value); 10] = [
+    ("typ", json!("JWT")),
+    ("cty", json!("text/plain")),
+    ("nonce", json!("n-1")),
+    ("url", json!("https://example.com/u")),
+    ("jku", json!("https://example.com/jwks.json")),
+    ("x5u", json!("https://example.com/cert.pem")),
+    ("x5c", json!(["AQ=="])),
+    ("x5t", json!("dGh1bWI")),
+    ("x5t#S256", json!("dGh1bWI")),
+    ("jwk", json!({"kty": "OKP", "crv": "Ed25519", "x": "11qYAYKxCrfVS_7TyWQHOg7hcvPapiMlrwIaaPcHURo"})),
+  ];
+  let (n, v) = &table[i as usize % table.len()];
+  (n.to_string(), v.clone())
+}
+const REGISTERED_SHARED: u8 = 10;
 
 #[derive(Debug, Clone, Copy, PartialEq, Eq, Serialize, Deserialize)]
 pub struct Row {
@@ -119,6 +140,9 @@ pub enum Fixed {
   B64False,
   /// `{"alg":"EdDSA","b64":true,"crit":["b64"]}`
   B64True,
+  /// No protected header at all, unprotected `{"alg":"EdDSA","kid":"k2"}` (decode entries only): its b64 reading is
+  /// the default `true`, and it can never be verified (no protected alg).
+  HeaderOnly,
 }
 
 const FIXED: [Fixed; 3] = [Fixed::Plain, Fixed::B64False, Fixed::B64True];
@@ -218,6 +242,7 @@ impl Hdr {
       Shared::None => {}
       Shared::Kid => m.push(("kid".into(), json!("shared-kid"))),
       Shared::Custom => m.push(("x-shared".into(), json!("v"))),
+      Shared::Registered(i) => m.push(registered_shared(i)),
     }
     m
   }
@@ -226,7 +251,7 @@ impl Hdr {
 impl Fixed {
   fn members(&self) -> Members {
     let b64 = match self {
-      Fixed::Plain => B64::Absent,
+      Fixed::Plain | Fixed::HeaderOnly => B64::Absent,
       Fixed::B64False => B64::False,
       Fixed::B64True => B64::True,
     };
@@ -635,9 +660,14 @@ pub fn check(case: &Case, obs: &mut Obs) -> CheckResult {
       }
     }
     Entry::GeneralDecode2 { fixed, row_first } => {
-      let fm = Some(fixed.members());
+      let header_only = fixed == Fixed::HeaderOnly;
+      let fm = (!header_only).then(|| fixed.members());
       let row_sig = sig_parts(&p, &u);
-      let fixed_sig = sig_parts(&fm, &None);
+      let fixed_sig = if header_only {
+        sig_parts(&None, &Some(vec![("alg".into(), json!("EdDSA")), ("kid".into(), json!("k2"))]))
+      } else {
+        sig_parts(&fm, &None)
+      };
       let (sigs, row_at) = if row_first {
         (vec![row_sig, fixed_sig], 0)
       } else {
@@ -698,6 +728,17 @@ pub fn check(case: &Case, obs: &mut Obs) -> CheckResult {
         B64Agreement::Disagree => {
           obs.label(format!("{entry}:reject-b64-disagreement"));
           obs.label("rule:b64-disagreement");
+          // A recipient without protected header can never be verified (no protected alg), so its failing `verify`
+          // says nothing about b64: with such a neighbour the disagreement has to surface while decoding.
+          if let (true, Dec::Accepted { claims: a }, Dec::RejectedAtVerify(_)) = (header_only, row_out, fixed_out) {
+            vfail!(
+              obs,
+              "general-decode-accepts-b64-disagreement",
+              "{desc} (b64 false) was decoded and verified with claims {:?} next to a recipient without protected \
+               header (b64 true by default), and that recipient was decoded as well",
+              String::from_utf8_lossy(a)
+            );
+          }
           if let (Dec::Accepted { claims: a }, Dec::Accepted { claims: b }) = (row_out, fixed_out) {
             vfail!(
               obs,
@@ -717,7 +758,12 @@ pub fn check(case: &Case, obs: &mut Obs) -> CheckResult {
         }
         B64Agreement::Agree => {
           judge_decoder(obs, &entry, &rules, alg_ok, row_out, &desc)?;
-          if !matches!(fixed_out, Dec::Accepted { .. }) {
+          let neighbour_ok = if header_only {
+            !matches!(fixed_out, Dec::RejectedAtDecode(_))
+          } else {
+            matches!(fixed_out, Dec::Accepted { .. })
+          };
+          if !neighbour_ok {
             vfail!(
               obs,
               format!("{entry}-rejects-valid-headers"),
@@ -755,12 +801,17 @@ fn hdrs() -> impl Iterator<Item = Option<Hdr>> + Clone {
 fn rows() -> impl Iterator<Item = Row> + Clone {
   hdrs().flat_map(|protected| {
     hdrs().flat_map(move |unprotected| {
-      let shareds: &[Shared] = if protected.is_some() && unprotected.is_some() {
-        &[Shared::None, Shared::Kid, Shared::Custom]
+      let plain = |h: Option<Hdr>| h.is_some_and(|h| h.b64 == B64::Absent && h.crit == Crit::Absent);
+      let mut shareds: Vec<Shared> = if protected.is_some() && unprotected.is_some() {
+        vec![Shared::None, Shared::Kid, Shared::Custom]
       } else {
-        &[Shared::None]
+        vec![Shared::None]
       };
-      shareds.iter().map(move |&shared| Row {
+      // every other registered parameter as the shared name, on the header pairs that have nothing else wrong
+      if plain(protected) && plain(unprotected) {
+        shareds.extend((0..REGISTERED_SHARED).map(Shared::Registered));
+      }
+      shareds.into_iter().map(move |shared| Row {
         protected,
         unprotected,
         shared,
@@ -787,6 +838,12 @@ fn entries() -> Vec<Entry> {
     e.push(Entry::GeneralDecode2 {
       fixed: f,
       row_first: true,
+    });
+  }
+  for row_first in [false, true] {
+    e.push(Entry::GeneralDecode2 {
+      fixed: Fixed::HeaderOnly,
+      row_first,
     });
   }
   e
